@@ -30,6 +30,8 @@ def sweep(h, rep, jobs, label, stats, on_result=None, max_report=3):
     res = vm_corr.run_many(h, [{k: v for k, v in j.items() if k not in ("name", "meta")} for j in jobs])
     reported = 0
     out = []
+    judge = None
+    pending = []
     for j, (job, r, st, det) in zip(jobs, res):
         stats[st] = stats.get(st, 0) + 1
         io = vm_corr.impl_outcome(r)
@@ -41,15 +43,41 @@ def sweep(h, rep, jobs, label, stats, on_result=None, max_report=3):
                 mm = re.search(r"steps=(\d+)", l)
                 if mm: stats["_steps"] = stats.get("_steps", 0) + int(mm.group(1))
         handled = on_result(j, r, st, det, io) if on_result else False
-        if not handled and st in ("diverge", "stop-mismatch", "result-mismatch", "output-mismatch", "final-mismatch", "model-timeout") and reported < max_report:
-            reported += 1
-            src = j.get("src") or ("file " + str(j.get("file")))
-            i_crashed = io["kind"].startswith(("sanitizer", "signal", "assert", "crash"))
-            rep.violation("%s_%s_%s" % (label, st, j["name"]),
-                          "# M-VM <-> vmexec.c correspondence broken (%s) on program %s, config %s, args %s\n# %s\n# I outcome: %s\n# stderr: %s\n%s"
-                          % (st, j["name"], r["cfg"], j.get("args"), det.replace("\n", "\n# "), io["kind"], r["err"][-500:].replace("\n", "\n# "), src), i_crashed)
+        if not handled and st in ("diverge", "stop-mismatch", "result-mismatch", "output-mismatch", "final-mismatch", "model-timeout"):
+            pending.append((j, r, st, det, io))
         out.append((j, r, st, det, io))
+        if not (pending and pending[-1][1] is r):
+            h.cleanup(r)
+    # report: implementation crashes first; then programs on which the reference evaluator says the behaviour is wrong (judged on up
+    # to JUDGE_MAX divergent programs); then plain broken-tie divergences
+    JUDGE_MAX = 12
+    judged = []
+    for n, (j, r, st, det, io) in enumerate(pending):
+        i_crashed = io["kind"].startswith(("sanitizer", "signal", "assert", "crash"))
+        rank = 0 if i_crashed else 2
+        if not i_crashed and n < JUDGE_MAX and r.get("cfg", {}).get("execs", 1) in (1, None) and not j.get("calls") and not j.get("pre"):
+            # is the implementation's behaviour on this program wrong by the language's rules? ask the reference evaluator
+            try:
+                import srcjudge
+                judge = judge or srcjudge.Judge()
+                text = j.get("src") or open(j["file"], encoding="latin1").read()
+                jc, jd = judge.judge(text, j.get("args") or [])
+                det = det + "\nsemantic oracle: " + jc + " - " + jd
+                if jc == "disagree":
+                    rank = 1     # concrete failing input: the program computes something else than the rules say
+            except Exception as e:
+                det = det + "\nsemantic oracle unavailable: %r" % (e,)
+        judged.append((rank, n, j, r, st, det, io))
+    judged.sort(key=lambda t: (t[0], t[1]))
+    for (rank, n, j, r, st, det, io) in judged[:max_report]:
+        src = j.get("src") or ("file " + str(j.get("file")))
+        rep.violation("%s_%s_%s" % (label, st, j["name"]),
+                      "# M-VM <-> vmexec.c correspondence broken (%s) on program %s, config %s, args %s\n# %s\n# I outcome: %s\n# stderr: %s\n%s"
+                      % (st, j["name"], r["cfg"], j.get("args"), det.replace("\n", "\n# "), io["kind"], r["err"][-500:].replace("\n", "\n# "), src), rank < 2)
+    for (j, r, st, det, io) in pending:
         h.cleanup(r)
+    if judge:
+        judge.close()
     return out
 
 def sample_jobs(limit=None, **cfg):
